@@ -74,6 +74,13 @@ fn main() {
             }
         }
         "ref" => props::reference_service(),
+        "orderhash" => {
+            // orderhash <corpus kind> <perm> <nperms>: convert the corpus in a permuted order, print the output hashes in corpus order
+            let kind: u32 = args[2].parse().expect("corpus kind");
+            let perm: usize = args[3].parse().expect("perm");
+            let nperms: usize = args[4].parse().expect("nperms");
+            props::orderhash_service(kind, perm, nperms)
+        }
         "xmldump" => props::xmldump_service(),
         "catalog" => shapes::print_live_catalog(),
         _ => usage(),
